@@ -91,6 +91,17 @@ def kind_cases():
     add("statusSelect", "drop-table", "drop table m1", ["create table m1 (a int)"])
     add("statusSelect", "alter-add", "alter table m1 add column b int", ["create table m1 (a int)"])
     add("statusSelect", "alter-rename", "alter table m1 rename to m3", ["create table m1 (a int)"])
+    add("statusSelect", "alter-drop-column", "alter table m1 drop column b", ["create table m1 (a int, b int)"])
+    add("statusSelect", "alter-rename-column", "alter table m1 rename column a to z", ["create table m1 (a int)"])
+    add("statusSelect", "alter-cluster-by", "alter table m1 cluster by (a)", ["create table m1 (a int)"])
+    add("statusSelect", "alter-column-comment", "alter table m1 alter column a comment 'c'", ["create table m1 (a int)"])
+    add("statusSelect", "alter-set-comment", "alter table m1 set comment = 'c'", ["create table m1 (a int)"])
+    add("statusSelect", "alter-view-rename", "alter view v2 rename to v3", ["create view v2 as select c0 from tt"])
+    add("statusSelect", "alter-table-if-exists", "alter table if exists m1 add column b int", ["create table m1 (a int)"])
+    add("statusSelect", "alter-session", "alter session set timezone = 'UTC'")
+    add("statusSelect", "drop-view", "drop view v2", ["create view v2 as select c0 from tt"])
+    add("statusSelect", "drop-schema", "drop schema s9", ["create schema s9"])
+    add("statusSelect", "create-or-replace-view", "create or replace view v2 as select c1 from tt", ["create view v2 as select c0 from tt"])
     add("statusSelect", "comment", "comment on table m1 is 'x'", ["create table m1 (a int)"])
     add("statusSelect", "set", "set v1 = 1")
     add("statusSelect", "unset", "unset v1", ["set v1 = 1"])
@@ -110,6 +121,45 @@ def kind_cases():
     add("rawCommand", "explain", "explain select 1")
     K.append({"kind": "stmt", "mkind": "beforeExecute", "name": "before-execute", "sql": None, "setup": [], "point": "before-fetch"})
     return K
+
+
+# re-execution on ONE cursor: steps are ("x", sql, params) executed on the cursor (description read after each unless marked
+# "quiet"), or ("other", sql) executed on another cursor of the same connection.  After every execute the description must be
+# what a FRESH cursor gets for the same (sql, params) at that moment, fit the fetched rows, and name the DictCursor keys.
+def reexec_cases():
+    R = []
+
+    def add(name, steps, paramstyle="pyformat", setup=()):
+        R.append({"kind": "reexec", "name": name, "steps": steps, "paramstyle": paramstyle, "setup": list(setup)})
+
+    m1 = ["create table m1 (a int)", "insert into m1 values (1)"]
+    add("add-column-between", [["x", "select * from m1", None], ["other", "alter table m1 add column b varchar"], ["x", "select * from m1", None]], setup=m1)
+    add("add-column-unread-statement-between", [["x", "select * from m1", None], ["xq", "alter table m1 add column b varchar", None], ["x", "select * from m1", None]], setup=m1)
+    add("drop-column-between", [["x", "select * from m1", None], ["other", "alter table m1 drop column b"], ["x", "select * from m1", None]],
+        setup=["create table m1 (a int, b int)", "insert into m1 values (1, 2)"])
+    add("table-replaced-between", [["x", "select a from m1", None], ["other", "create or replace table m1 (a varchar)"], ["other", "insert into m1 values ('s')"], ["x", "select a from m1", None]], setup=m1)
+    add("view-redefined-between", [["x", "select * from v2", None], ["other", "create or replace view v2 as select c13, c5 from tt"], ["x", "select * from v2", None]],
+        setup=["create view v2 as select c0 from tt"])
+    add("rename-column-between", [["x", "select * from m1", None], ["other", "alter table m1 rename column a to z"], ["x", "select * from m1", None]], setup=m1)
+    add("same-text-twice-unchanged", [["x", "select c0, c13 from tt", None], ["x", "select c0, c13 from tt", None]])
+    add("status-then-query-then-status", [["x", "insert into m1 values (2)", None], ["x", "select * from m1", None], ["x", "insert into m1 values (2)", None]], setup=m1)
+    for style, ph in (("qmark", "?"), ("pyformat", "%s"), ("format", "%s")):   # numeric (:1) is not parsed by the fake
+        add(f"param-types-{style}", [["x", f"select {ph} as x", [1]], ["x", f"select {ph} as x", ["abc"]], ["x", f"select {ph} as x", [1.5]],
+                                     ["x", f"select {ph} as x", [True]], ["x", f"select {ph} as x", [1]]], paramstyle=style)
+        add(f"param-types-quiet-between-{style}", [["x", f"select {ph} as x", ["abc"]], ["xq", f"select {ph} as x", [2.5]], ["x", f"select {ph} as x", [7]]], paramstyle=style)
+    return R
+
+
+# purity of describe()/description with respect to the session's random generator: after `select random(7)` the values of the
+# next `select random()` calls are fixed; whatever is described in between must not change them (twin: nothing in between)
+def seedpure_cases():
+    S = []
+    for name, op in [("describe-random-seed", ["describe", "select random(99) as r"]), ("describe-random-seed-from", ["describe", "select random(5) as r, c0 from tt"]),
+                     ("describe-sample-seed", ["describe", "select c0 from tt sample (50) seed (3)"]), ("describe-plain", ["describe", "select c0 from tt"]),
+                     ("describe-ctas-seed", ["describe", "select * from (select random(11) as r)"]),
+                     ("description-after-select", ["description", "select c0 from tt"]), ("description-after-sample-seed", ["description", "select c0 from tt sample (50) seed (3)"])]:
+        S.append({"kind": "seedpure", "name": name, "op": op})
+    return S
 
 
 FINDING_OF_KIND = {"seededQuery": "C06/describe-seeded-query", "rawCommand": "C06/describe-raw-command", "beforeExecute": "C06/describe-before-execute"}
@@ -216,7 +266,10 @@ def _real_stmt(case):
             other = conn.cursor()
             other.execute("select c0, i0 from tt order by 1")
             other_first = other.fetchone()
-            cur.execute(case["sql"])
+            try:
+                cur.execute(case["sql"])
+            except Exception as e:
+                return {"exec_error": f"{type(e).__name__}: {str(e)[:100]}"}
             res["rowcount"] = cur.rowcount
             fetched = []
             if case["point"] == "after-fetchone":
@@ -258,6 +311,90 @@ def _real_stmt(case):
     return {"with": run(True), "twin": run(False)}
 
 
+def _real_reexec(case):
+    import fakesnow
+    import snowflake.connector
+    from snowflake.connector.cursor import DictCursor
+    old = snowflake.connector.paramstyle
+    snowflake.connector.paramstyle = case["paramstyle"]
+    try:
+        with fakesnow.patch():
+            conn = snowflake.connector.connect(database="db1", schema="s1")
+            _fixture(conn)
+            for q in case["setup"]:
+                conn.cursor().execute(q)
+            cur = conn.cursor()
+            out = []
+            for step in case["steps"]:
+                if step[0] == "other":
+                    conn.cursor().execute(step[1])
+                    out.append(None)
+                    continue
+                sql, params = step[1], (tuple(step[2]) if step[2] is not None else None)
+                r = {}
+                try:
+                    cur.execute(sql, params)
+                except Exception as e:
+                    out.append({"exec_error": f"{type(e).__name__}: {str(e)[:100]}"})
+                    continue
+                if step[0] == "xq":       # executed, description deliberately not read
+                    out.append(None)
+                    continue
+                try:
+                    r["description"] = _meta(cur.description)
+                except Exception as e:
+                    r["description"] = f"raises {type(e).__name__}"
+                rows = cur.fetchall()
+                r["width"] = len(rows[0]) if rows else None
+                r["pytypes"] = [_pytype(v) for v in rows[0]] if rows else None
+                is_query = sql.lstrip().lower().startswith("select")
+                if is_query:
+                    fresh = conn.cursor()
+                    fresh.execute(sql, params)
+                    try:
+                        r["fresh"] = _meta(fresh.description)
+                    except Exception as e:
+                        r["fresh"] = f"raises {type(e).__name__}"
+                    d = conn.cursor(DictCursor)
+                    d.execute(sql, params)
+                    dr = d.fetchall()
+                    r["dict_keys"] = list(dr[0].keys()) if dr else None
+                out.append(r)
+            return out
+    finally:
+        snowflake.connector.paramstyle = old
+
+
+def _real_seedpure(case):
+    import fakesnow
+    import snowflake.connector
+
+    def run(do_op: bool):
+        with fakesnow.patch():
+            conn = snowflake.connector.connect(database="db1", schema="s1")
+            _fixture(conn)
+            cur = conn.cursor()
+            kind, sql = case["op"]
+            if kind == "description":
+                cur.execute(sql)          # both twins execute it; only one reads description
+            conn.cursor().execute("select random(7)")
+            res = {}
+            if do_op:
+                try:
+                    res["meta"] = _meta(conn.cursor().describe(sql)) if kind == "describe" else _meta(cur.description)
+                except Exception as e:
+                    res["meta"] = f"raises {type(e).__name__}"
+            vals = []
+            for _ in range(3):
+                k = conn.cursor()
+                k.execute("select random()")
+                vals.append(k.fetchall()[0][0])
+            res["random"] = vals
+            return res
+
+    return {"with": run(True), "twin": run(False)}
+
+
 def _worker(shard):
     import fakesnow
     import snowflake.connector
@@ -272,6 +409,10 @@ def _worker(shard):
     for i, c in enumerate(shard):
         if c["kind"] == "stmt":
             out[i] = _real_stmt(c)
+        elif c["kind"] == "reexec":
+            out[i] = _real_reexec(c)
+        elif c["kind"] == "seedpure":
+            out[i] = _real_seedpure(c)
     return [out[i] for i in range(len(shard))]
 
 
@@ -346,6 +487,9 @@ def _check_stmt(chk, case, real, drv):
     chk.count(f"stmt:{case['name']}")
     chk.count(f"point:{case['point']}")
     w, twin = real["with"], real["twin"]
+    if "exec_error" in w or "exec_error" in twin:
+        chk.count("stmt:statement-rejected")      # not a successfully executed statement: no demand
+        return
     model = drv.ask("descr", "kind", case["mkind"])["describe"]
     where = f"`{case['sql']}` (description read {case['point']}" + (f", after {case['setup']}" if case["setup"] else "") + ")"
     d = w["description"]
@@ -388,24 +532,66 @@ def _check_stmt(chk, case, real, drv):
         chk.violation(what, case, broken="C06_available_partial (correspondence with Fs.Types.describeLast)")
 
 
+def _check_reexec(chk, case, real, drv):
+    chk.case(("reexec", case["name"]), nontrivial=True)
+    chk.count(f"reexec:{case['name'].split('-')[0]}")
+    shown = [(st[1], st[2]) if st[0] != "other" else ("(other cursor)", st[1]) for st in case["steps"]]
+    for i, (step, r) in enumerate(zip(case["steps"], real)):
+        if r is None:
+            continue
+        if "exec_error" in r:
+            chk.count("reexec:statement-rejected")
+            return
+        where = f"one cursor, paramstyle {case['paramstyle']}, steps {shown}: after step #{i} `{step[1]}` with params {step[2]!r}"
+        d = r["description"]
+        if isinstance(d, str):
+            chk.violation(f"{where}: description {d}", case, broken="C06_available_partial (correspondence)")
+            return
+        if "fresh" in r and d != r["fresh"]:
+            chk.violation(f"{where}: description {d} but a fresh cursor executing the same statement now gets {r['fresh']} (stale metadata of an earlier execution)", case,
+                          broken="C06_description_last_only (correspondence with Fs.Descr.description)")
+            return
+        if r["width"] is not None and r["width"] != len(d):
+            chk.violation(f"{where}: {len(d)} description entries for rows of width {r['width']}", case, broken="C06_description_last_only / one entry per result column")
+            return
+        if r.get("dict_keys") is not None and r["dict_keys"] != [m[0] for m in d]:
+            chk.violation(f"{where}: description names {[m[0] for m in d]} differ from DictCursor keys {r['dict_keys']}", case, broken="C06 names = DictCursor keys (correspondence)")
+            return
+
+
+def _check_seedpure(chk, case, real, drv):
+    chk.case(("seedpure", case["name"]), nontrivial=True)
+    chk.count(f"seedpure:{case['op'][0]}")
+    w, twin = real["with"], real["twin"]
+    if w["random"] != twin["random"]:
+        chk.violation(f"`select random(7)` then {case['op'][0]}(`{case['op'][1]}`) then three `select random()`: values {w['random']} but {twin['random']} without the "
+                      f"{case['op'][0]} - reading metadata reseeded the session's random generator", case,
+                      broken="C06_describe_pure / C06_describe_sends_no_setseed / C06_description_pure (correspondence)")
+
+
 def _corpus():
     import json
     d = common.CORPUS / "C06"
     return [json.loads(f.read_text())["case"] for f in sorted(d.glob("*.json"))] if d.is_dir() else []
 
 
+CHECKS = {"type": _check_type, "stmt": _check_stmt, "reexec": _check_reexec, "seedpure": _check_seedpure}
+
+
 def run(chk) -> None:
-    cases = _corpus() + type_queries(chk) + kind_cases()
+    cases = _corpus() + type_queries(chk) + kind_cases() + reexec_cases() + seedpure_cases()
     chk.rule = ("A: every declared column type, every DECIMAL(p,s) 1<=p<=38 (quick: boundary + 120 sampled; thorough: all 741), 42 expression forms, 21 aggregate/arithmetic "
                 "forms, 6 bound-parameter forms: description vs types.py model on DuckDB's DESCRIBE types, describe(sql), DictCursor keys, width, Python types; "
-                "B: 45 statement kinds x 3 read points with a twin that never reads description; C: purity snapshots.  non-trivial = every case")
+                "B: 56 statement kinds (incl. ALTER TABLE/VIEW/SESSION forms) x 3 read points with a twin that never reads description; C: purity snapshots; "
+                "D: re-execution of the same text on one cursor after the shape changed (ALTER/REPLACE through another cursor or an unread statement) or with differently "
+                "typed parameters under qmark/pyformat/format, compared with a fresh cursor; E: the session's seeded random() sequence around describe()/description.  non-trivial = every case")
     shards = common.chunks(cases, 16)
     reals = common.shard_map(_worker, shards)
     drv = common.Driver()
     try:
         for shard, rs in zip(shards, reals):
             for c, r in zip(shard, rs):
-                (_check_type if c["kind"] == "type" else _check_stmt)(chk, c, r, drv)
+                CHECKS[c["kind"]](chk, c, r, drv)
     finally:
         drv.close()
     chk.exhaustive = True
@@ -422,6 +608,6 @@ def replay(chk, case) -> None:
     reals = _worker([case])
     drv = common.Driver()
     try:
-        (_check_type if case["kind"] == "type" else _check_stmt)(chk, case, reals[0], drv)
+        CHECKS[case["kind"]](chk, case, reals[0], drv)
     finally:
         drv.close()
